@@ -336,6 +336,7 @@ def decide_and_report(prop, plan, ctx, verdicts, xchk, oracle, canary, audit, st
 
     oracle_reran = {}
     replay_budget = {"oracle_runs": 0, "t0": time.time(), "diffs": 0}
+    spurious = set()
     for v in failures:
         k = is_known(v.name)
         if k:
@@ -353,7 +354,23 @@ def decide_and_report(prop, plan, ctx, verdicts, xchk, oracle, canary, audit, st
                     atoms = RP.atoms_of([RP.from_json(x) for x in v.model.values() if isinstance(x, (dict, str, int))])
                     atoms["allow_ob"] = True
                     c = ctx.db.get(q)
-                    if (c.harness is None or c.diff is not None) and (replay_budget["diffs"] < 6 and time.time() - replay_budget["t0"] < 240):
+                    # first the counter-model itself: the solver says "on THIS input the function and its contract disagree".  If the real
+                    # function agrees with the executable contract on exactly that input, the symbolic model of the function is not
+                    # faithful there (an engine limitation met on code it has not seen): the refutation is spurious, not a finding.
+                    if c.harness is None and v.backend.startswith(("z3", "cvc5")) and isinstance(v.model, dict) and v.model:
+                        try:
+                            ex_in = RP.exact_case(c, v.model, ctx.seed)
+                            if ex_in is not None:
+                                n_ex, mm_ex = RP.differential(ctx.src, c, exact=[ex_in])
+                                if n_ex == 1 and not mm_ex:
+                                    rep["counter_model_replay"] = "the real function agrees with the executable contract on the solver's counter-model: spurious refutation (symbolic model of this function not faithful on this input)"
+                                    spurious.add(v.name)
+                                elif mm_ex and not any("harness_error" in m_ for m_ in mm_ex):
+                                    found = {"function": q, "failing_input": mm_ex[0]["input"], "expected_by_contract": mm_ex[0].get("expected"), "observed_real": mm_ex[0].get("observed"),
+                                             "source": "the solver's counter-model, replayed on the real function"}
+                        except Exception as ex:
+                            rep["counter_model_replay_error"] = f"{type(ex).__name__}: {ex}"
+                    if found is None and (c.harness is None or c.diff is not None) and (replay_budget["diffs"] < 6 and time.time() - replay_budget["t0"] < 240):
                         replay_budget["diffs"] += 1
                         dom = []
                         for pat, ex_ in (plan.relevance or {}).items():
@@ -365,6 +382,12 @@ def decide_and_report(prop, plan, ctx, verdicts, xchk, oracle, canary, audit, st
                             rep["domain_note"] = f"no real-code counterexample with `{dom[0]}` among {n} in-domain inputs"
                         if mm:
                             found = {"function": q, "failing_input": mm[0]["input"], "expected_by_contract": mm[0].get("expected"), "observed_real": mm[0].get("observed")}
+                        elif c.harness is not None and c.diff is not None and n >= 300 and v.backend.startswith(("z3", "cvc5")):
+                            # a harness contract cannot replay the counter-model itself (its receiver is a symbolic record); its DiffSpec builds real
+                            # receivers from the counter-model's atoms instead.  When several hundred of them agree with the contract (and the property
+                            # oracle is clean, below) the refutation is treated like a spurious counter-model: undecided, not a finding.
+                            rep["harness_replay"] = f"{n} real receivers built around the counter-model agree with the executable contract"
+                            spurious.add(v.name)
                 except Exception as ex:
                     rep["replay_error"] = f"{type(ex).__name__}: {ex}"
             prop_fail = None
@@ -389,6 +412,10 @@ def decide_and_report(prop, plan, ctx, verdicts, xchk, oracle, canary, audit, st
             if prop_fail is not None or (own and found is not None):
                 path = RP.write_replay(prop, v.name, rep)
                 violations.append((v, path, ""))
+            elif own and v.name in spurious:
+                undecided.append((v, "refuted by the solver, but the real function agrees with its contract on the solver's counter-model (harness contracts: on the real receivers "
+                                     "built around it) and no other failing input was found: the symbolic model of this function is not faithful here - an engine limitation, "
+                                     "decided by the bounded stand-in"))
             elif own:
                 path = RP.write_replay(prop, v.name, rep)
                 violations.append((v, path, " no-failing-input-found"))
